@@ -11,9 +11,10 @@ import struct
 
 from mon.engines import lockstep as L
 from mon.core.merge import merge, need
-from mon.core.util import Counter, rng
+from mon.core.util import Counter, rng, h64
 from mon.engines import traffic as T
 from mon.props import c05
+from mon.models.ring import ring_diff
 
 ID = "C04"
 LEVEL = "fault_enumeration"
@@ -23,8 +24,10 @@ PROPS = ("C04",)
 
 def plan(tier, seed):
     if tier == "quick":
-        return [{"kind": "faults", "tier": tier, "seed": seed, "shard": i, "n": 3, "subprocess": True} for i in range(14)]
-    return [{"kind": "faults", "tier": tier, "seed": seed, "shard": i, "n": 30, "subprocess": True} for i in range(32)]
+        return ([{"kind": "faults", "tier": tier, "seed": seed, "shard": i, "n": 3, "subprocess": True} for i in range(14)]
+                + [{"kind": "teardown", "tier": tier, "seed": seed, "shard": 0, "n": 6, "subprocess": True}])
+    return ([{"kind": "faults", "tier": tier, "seed": seed, "shard": i, "n": 30, "subprocess": True} for i in range(32)]
+            + [{"kind": "teardown", "tier": tier, "seed": seed, "shard": i, "n": 25, "subprocess": True} for i in range(4)])
 
 
 def replay_adversary(run, r, c):
@@ -83,8 +86,150 @@ def replay_adversary(run, r, c):
     return lambda: w.tick_hooks.remove(tick)
 
 
+def run_teardown(cfg, out):
+    """sessions that END while their last datagrams are still in flight: the client application sends k datagrams worth of
+    messages (m messages each, every retry mode) and then calls disconnect(); the network holds all of them and releases them
+    together - between two server ticks - in an order in which the DISCONNECT datagram overtakes j of the k application
+    datagrams (j = 0..k).  Whatever the server does with messages that reach it after the DISCONNECT, every unique payload is
+    handed to EventHandler.handle_message at most once (judged by AppTracker from the delivery log); in addition a payload that
+    the application got more often than the endpoint accepted it is reported under its own label."""
+    total = 0
+    for case in range(cfg["n"]):
+        key = [cfg["seed"], cfg["shard"], case]
+        if cfg.get("only_case") and cfg["only_case"] != key:
+            continue
+        r = rng("C04", "teardown", *key)
+        dt = r.choice([1 / 60, 1 / 60, 1 / 30, 1 / 120])
+        with T.Run(r, mtu=r.choice([1500, 1500, 576]), dt=dt, jitter=r.choice([0.0, 0.2])) as run:
+            w = run.world
+            w.net.heal(0.004)
+            run.report.context = {"case_key": key, "scenario": "teardown"}
+            bystander = w.connect_client() if r.random() < 0.5 else None
+            if r.random() < 0.4:
+                # the server application's handle_message raises now and then (after it has taken the message)
+                raise_r = rng("C04", "teardown-raise", *key)
+
+                def raiser(client, seqnum, msg):
+                    if raise_r.random() < 0.15:
+                        raise RuntimeError("seeded handler failure")
+                w.handler.on.setdefault("message", []).append(raiser)
+            # what the server is offered, tick by tick: (tick, "disconnect" | "app" | "other") per datagram of the session's client
+            offered = []
+            state = {}
+
+            def classify(datagram):
+                conn = state["c"].udp.conn
+                dec = L.decode_datagram(datagram, conn.session_key_bytes if conn is not None else state.get("key"))
+                if not dec.ok:
+                    return "other"
+                types = {t for _s, t, _p in dec.msgs}
+                return "disconnect" if 5 in types else ("app" if types & {6, 7} else "other")
+
+            def on_offer(addr, datagram, origin):
+                if state.get("c") is not None and addr == state["c"].addr:
+                    offered.append((w.ticks, classify(datagram), L.parse_header(datagram)[2]))
+            w.offer_hooks.append(on_offer)
+
+            def hold(direction, addr, datagram, info):
+                # every datagram the client emits from the start of the burst on is released at t_rel, in emission order - except
+                # the DISCONNECT datagram, which is placed in front of the last j application datagrams
+                if direction != "c2s" or state.get("c") is None or addr != state["c"].addr or not state.get("holding"):
+                    return None
+                kind = classify(datagram)
+                state["emitted"] += 1
+                if kind == "app" and not state["disc"]:
+                    state["app"] += 1
+                    slot = state["app"] * 1e-7
+                elif kind == "disconnect" and not state["disc"]:
+                    state["disc"] += 1
+                    slot = (state["app"] - min(state["j"], state["app"])) * 1e-7 + 0.5e-7
+                else:
+                    # keep-alives in between stay where they were; whatever follows the DISCONNECT arrives after everything else
+                    slot = (state["app"] * 1e-7 + 0.2e-7 if not state["disc"] else 1e-5) + state["emitted"] * 1e-10
+                return [max(0.0, state["t_rel"] + slot - w.clock.now)]
+
+            shapes = [0, 1, 2, None, None]           # j: none, one, two, all, random (>= 2) of the k datagrams are overtaken
+            r.shuffle(shapes)
+            for sess in range(len(shapes)):
+                c = w.connect_client(w.add_client(addr=("10.4.%d.%d" % (case % 250, sess + 2), 41000 + sess)))
+                c.updates_per_step = 1
+                sc = run.sconn(c)
+                if sc is None:
+                    break
+                k = r.randint(2, 5)
+                m = r.randint(1, 3)
+                j = shapes[sess]
+                j = (k if sess % 2 else r.randint(2, k)) if j is None else j
+                # a little ordinary traffic both ways first
+                for _t in range(r.randint(3, 12)):
+                    run.app.send(c, "client", r.choice([11, 30, 200]), r.choice([0, 1, -1]), with_cb=False)
+                    run.app.send(sc, "server", r.choice([11, 30, 200]), r.choice([0, 1, -1]), with_cb=False)
+                    if bystander is not None and run.open(bystander):
+                        run.app.send(bystander, "client", 20, 0, with_cb=False)
+                    w.step()
+                w.step(6)
+                del offered[:]
+                state.update(c=c, key=c.udp.conn.session_key_bytes, holding=True, emitted=0, app=0, disc=0, k=k, j=j,
+                             t_rel=w.clock.now + 0.35 + 0.05 * k)
+                w.net.filters.append(hold)
+                sent = []
+                guard = 0
+                while state["app"] < k and guard < 40:
+                    guard += 1
+                    want = state["app"]
+                    for _m in range(m):
+                        sent.append(run.app.send(c, "client", r.choice([11, 12, 40, 300]), r.choice([0, 0, 1, -1]), with_cb=False))
+                        total += 1
+                        out["distinct"].add(h64("teardown", key, sess, len(sent)))
+                    while state["app"] == want and guard < 40:
+                        guard += 1
+                        w.step()
+                if state["app"] == k and w.clock.now < state["t_rel"] - 4 * w.dt:
+                    c.udp.disconnect()
+                    run.c.inc("teardown_sessions")
+                    while w.clock.now < state["t_rel"] + 6 * w.dt:
+                        w.step()
+                    # what did the server see?  (read from the offers, not from the plan)
+                    # an application datagram is overtaken when it is offered after the DISCONNECT datagram, in the same tick, and
+                    # carries an older datagram sequence number (what the client emits after disconnect() is not counted)
+                    for t, dseq in [(t, q) for t, kind, q in offered if kind == "disconnect"][:1]:
+                        same = [(kind, q) for tt, kind, q in offered if tt == t]
+                        after = sum(1 for kind, q in same[same.index(("disconnect", dseq)) + 1:] if kind == "app" and ring_diff(dseq, q) > 0)
+                        run.c.inc("teardown_disconnect_overtook_%s_in_one_tick" % ("none" if after == 0 else "one" if after == 1 else "two_or_more"))
+                        run.c.inc("teardown_datagrams_behind_disconnect", after)
+                else:
+                    run.c.inc("teardown_sessions_not_shaped")
+                w.net.filters.remove(hold)
+                state["holding"] = False
+                w.step(10)
+                # handed over more often than accepted: the application got a payload again although the endpoint did not receive
+                # (accept) it again - no duplicate on the wire explains it
+                for rec in sent:
+                    got = run.app.deliveries.get(rec["id"], []) if rec["id"] else []
+                    if got:
+                        run.c.inc("teardown_payloads_delivered")
+                    if len(got) > 1 and (id(sc), rec["id"]) not in run.app.double_at_accept:
+                        run.report("C04", "handed-to-application-again-without-being-received-again",
+                                   "message %r (%d bytes, retry %d) was accepted once by the server endpoint but handed to handle_message %d times "
+                                   "(client disconnecting: DISCONNECT overtook %d of %d datagrams, %d messages each, all offered in one tick)" % (
+                                       rec["id"], rec["len"], rec["retry"], len(got), j, k, m), {"overtaken": j, "datagrams": k, "per_datagram": m})
+                if c.udp.conn is not None:
+                    c.udp.forceDisconnect()
+                w.remove_client(c)
+                state["c"] = None
+                w.step(r.randint(2, 20))
+            if len(out["samples"]) < 2:
+                out["samples"].append({"scenario": "teardown", "case_key": key, "dt": dt, "shapes": shapes})
+            c05.collect(run, out, PROPS, {"kind": "teardown", "key": key})
+    return total
+
+
 def run_shard(cfg):
     out = {"violations": [], "counters": Counter(), "samples": [], "distinct": set()}
+    if cfg.get("kind") == "teardown":
+        n = run_teardown(cfg, out)
+        return {"evaluations": n, "distinct": sorted(out["distinct"]), "counters": dict(out["counters"]),
+                "violations": out["violations"][:60], "samples": out["samples"]}
     n = c05.run_faults(cfg, out, props=PROPS, tag="C04", extra=replay_adversary,
                        profiles_pool=["dup", "dup", "reorder", "hostile", "acks-lost", "slow", "lossy"])
     return {"evaluations": n, "distinct": sorted(out["distinct"]), "distinct_count": out.get("distinct_n", 0), "counters": dict(out["counters"]),
@@ -95,7 +240,9 @@ def finish(tier, seed, results):
     m = merge(results)
     inconclusive = []
     need(m["counters"], ["delivered_to_server", "delivered_to_client", "duplicates_dropped", "adv_replay_recent", "adv_replay_beyond_window",
-                         "adv_replay_old", "adv_ring_walks", "net_duplicated_c2s", "net_duplicated_s2c", "message_bursts", "recv_genuine"], inconclusive)
+                         "adv_replay_old", "adv_ring_walks", "net_duplicated_c2s", "net_duplicated_s2c", "message_bursts", "recv_genuine",
+                         "teardown_disconnect_overtook_none_in_one_tick", "teardown_disconnect_overtook_one_in_one_tick",
+                         "teardown_disconnect_overtook_two_or_more_in_one_tick", "teardown_payloads_delivered"], inconclusive)
     cov = {
         "evaluations": m["evaluations"],
         "distinct_nontrivial": m["distinct_nontrivial"],
@@ -105,7 +252,9 @@ def finish(tier, seed, results):
                 "Every delivery is matched to its send by the unique id in the payload; every copy of an accepted datagram must be "
                 "dropped whole. distinct = application sends made inside fault worlds (unique payload id, own network fate)",
         "fault_classes": ["network duplication (1-3 copies)", "reordering", "ack loss", "replay:recent", "replay:beyond-32-window",
-                          "replay:old (beyond both windows)", "retransmission (BEST_EFFORT / RETRY_ON_TIMEOUT)"],
+                          "replay:old (beyond both windows)", "retransmission (BEST_EFFORT / RETRY_ON_TIMEOUT)",
+                          "teardown: the client's DISCONNECT datagram overtakes 0..k of its k last application datagrams, all offered to the "
+                          "server between two ticks (plus the retransmissions the client still emits after disconnect())"],
         "samples": m["samples"],
         "counters": m["counters"],
     }
